@@ -260,8 +260,14 @@ class Steer:
     What correct code must not do is behave differently because a random-looking value happens to look like a pickle,
     a JSON document, white space or padding."""
 
-    def __init__(self, rng, p=0.12, cap=6, prf=True, urandom=True):
+    def __init__(self, rng, p=0.12, cap=6, prf=True, urandom=True, cluster=0.0):
+        """cluster: probability that a forced value gets the CASE's cluster prefix (random bytes drawn at arm(), as
+        four bytes, values of at least 16 bytes only) instead of a magic pattern: many values then agree in their leading
+        word and differ only further back - code that orders or compares by a leading word only
+        shows here instead of at 2^18 entries."""
         self.rng, self.p, self.cap = rng, p, cap
+        self.cluster = cluster
+        self.cluster_prefix = b""
         self.do_prf, self.do_urandom = prf, urandom
         self.steered_prf = {}
         self.seen = set()
@@ -277,10 +283,19 @@ class Steer:
         self.steered_values = []
         self.patterns = []
         self.left = self.cap
+        self.cluster_prefix = bytes(self.rng.randrange(256) for _ in range(10))
 
     def _force(self, out):
         rng = self.rng
         n = len(out)
+        if self.cluster and rng.random() < self.cluster:
+            # (four bytes only: a PRF output may be split into fields - label || key - and the first field, which the
+            # caller guarantees to be at least 16 bytes long, must keep enough random bytes not to collide)
+            k = 4
+            if n < 16:
+                return None
+            self.patterns.append("cluster:%d" % k)
+            return self.cluster_prefix[:k] + out[k:]
         if rng.random() < 0.65:
             P = rng.choice(MAGIC_PREFIXES)
             if len(P) > n - 6:
